@@ -30,6 +30,13 @@ def alphabet(m):
     for p in ('1', '2'):
         if p in m.pfs and m.pfs[p].cash > 0 and abs(Fraction(repr(m.quoted_cash(p))) - m.pfs[p].cash) >= Fraction(1, 1000):
             evs.append(('pf_wd_quoted', p))
+    # a fill the position refuses (price 0 on a held asset, commission 1.25), handed to the portfolio directly: cash,
+    # history and holdings must be exactly what they were
+    for p in ('1', '2'):
+        if p in m.pfs and m.pfs[p].clock <= m.clock:
+            for a in sorted(m.pfs[p].pos):
+                if m.pfs[p].pos[a].clock <= m.clock:
+                    evs.append(('fill_refused', p, a))
     for p in ('1', '2'):
         for a, qs in (('A', (3, -3, 5, -8)), ('Bq', (5, -8))):
             for q in qs:
